@@ -15,6 +15,19 @@ class FsFault(IOError):
   pass
 
 
+class Unmodelled(Exception):
+  """The code under test used a file-system primitive MemFS does not model: the check cannot decide
+  (reported INCONCLUSIVE by the driver, never as a violation)."""
+
+
+class _NS(types.SimpleNamespace):
+  def __getattr__(self, name):
+    raise Unmodelled('%s.%s is not modelled by MemFS' % (self.__dict__.get('_ns_name', 'fs'), name))
+
+
+O_WRONLY, O_RDWR, O_CREAT, O_EXCL, O_TRUNC, O_APPEND = 1, 2, 64, 128, 512, 1024
+
+
 class MemFS:
   def __init__(self, files=None, crash_at=None, fail_write_at=None, fail_close=False):
     self.files = dict(files or {})
@@ -42,12 +55,13 @@ class MemFS:
 
   # -- file objects ---------------------------------------------------------
   class _File:
-    def __init__(self, fs, name, mode='wb'):
+    def __init__(self, fs, name, mode='wb', pos=None):
       self.fs = fs
       self.name = name
       self.mode = mode
       self.buf = b''
       self.closed = False
+      self.pos = pos      # None: append at the end of the file (files created empty, 'a' mode); int: overwrite in place
 
     def write(self, data):
       fs = self.fs
@@ -66,7 +80,13 @@ class MemFS:
 
     def flush(self):
       if self.buf and self.fs._op('flush ' + self.name):
-        self.fs.files[self.name] = self.fs.files.get(self.name, b'') + self.buf
+        cur = self.fs.files.get(self.name, b'')
+        if self.pos is None:
+          self.fs.files[self.name] = cur + self.buf
+        else:              # a descriptor opened without O_TRUNC/O_APPEND overwrites the old bytes in place
+          self.fs.files[self.name] = cur[:self.pos] + self.buf + cur[self.pos + len(self.buf):]
+      if self.pos is not None:
+        self.pos += len(self.buf)
       self.buf = b''
 
     def fileno(self):
@@ -80,6 +100,9 @@ class MemFS:
         self.buf = b''
         raise FsFault('close/flush failed (injected)')
       self.flush()
+
+    def __getattr__(self, name):
+      raise Unmodelled('file.%s is not modelled by MemFS' % name)
 
     def __enter__(self):
       return self
@@ -99,7 +122,32 @@ class MemFS:
 
     def NamedTemporaryFile(mode='w+b', delete=True, **kw):
       fs.tmp_counter += 1
+      while '/tmp/tmp%d' % fs.tmp_counter in fs.files:      # the real one opens with O_EXCL: always a fresh name
+        fs.tmp_counter += 1
       return fs._create('/tmp/tmp%d' % fs.tmp_counter, 'wb' if 'b' in mode else 'w')
+
+    fds = {}
+
+    def os_open(path, flags, mode=0o777, **kw):
+      if not (flags & (O_WRONLY | O_RDWR)):
+        raise Unmodelled('os.open for reading is not modelled by MemFS')
+      if path in fs.files:
+        if flags & O_CREAT and flags & O_EXCL:
+          raise FileExistsError(path)
+        if flags & O_TRUNC and fs._op('truncate ' + path):
+          fs.files[path] = b''
+      else:
+        if not flags & O_CREAT:
+          raise FileNotFoundError(path)
+        if fs._op('create ' + path):
+          fs.files[path] = b''
+      fd = 100 + len(fds)
+      fds[fd] = (path, flags)
+      return fd
+
+    def fdopen(fd, mode='r', *a, **kw):
+      path, flags = fds[fd]
+      return MemFS._File(fs, path, mode, pos=(None if flags & O_APPEND or 'a' in mode else 0))
 
     def open_(name, mode='r', *a, **kw):
       if 'w' in mode:
@@ -107,7 +155,7 @@ class MemFS:
       if 'a' in mode:
         f = MemFS._File(fs, name, mode)
         return f
-      raise NotImplementedError('MemFS: read mode')
+      raise Unmodelled('open() for reading is not modelled by MemFS')
 
     def rename(src, dst):
       if src not in fs.files and not fs.crashed:
@@ -149,13 +197,14 @@ class MemFS:
         raise FileNotFoundError(path)
       return types.SimpleNamespace(st_mode=0o100644, st_size=len(fs.files[path]), st_uid=0, st_gid=0)
 
-    path_ns = types.SimpleNamespace(exists=exists, isfile=exists, lexists=exists,
+    path_ns = _NS(_ns_name='os.path', exists=exists, isfile=exists, lexists=exists,
                                     dirname=lambda p: p.rsplit('/', 1)[0], basename=lambda p: p.rsplit('/', 1)[-1],
                                     join=lambda *a: '/'.join(a))
-    os_ns = types.SimpleNamespace(rename=rename, replace=replace, remove=remove, unlink=remove, fsync=fsync,
-                                  path=path_ns, stat=stat, chmod=lambda *a, **k: None, chown=lambda *a, **k: None,
-                                  error=OSError)
-    shutil_ns = types.SimpleNamespace(move=move, copyfile=copyfile, copy=copyfile, copy2=copyfile,
+    os_ns = _NS(_ns_name='os', rename=rename, replace=replace, remove=remove, unlink=remove, fsync=fsync,
+                path=path_ns, stat=stat, chmod=lambda *a, **k: None, chown=lambda *a, **k: None,
+                error=OSError, open=os_open, fdopen=fdopen, O_WRONLY=O_WRONLY, O_RDWR=O_RDWR, O_CREAT=O_CREAT,
+                O_EXCL=O_EXCL, O_TRUNC=O_TRUNC, O_APPEND=O_APPEND)
+    shutil_ns = _NS(_ns_name='shutil', move=move, copyfile=copyfile, copy=copyfile, copy2=copyfile,
                                       copymode=lambda *a, **k: None, copystat=lambda *a, **k: None)
-    tempfile_ns = types.SimpleNamespace(NamedTemporaryFile=NamedTemporaryFile)
+    tempfile_ns = _NS(_ns_name='tempfile', NamedTemporaryFile=NamedTemporaryFile)
     return types.SimpleNamespace(os=os_ns, shutil=shutil_ns, tempfile=tempfile_ns, open=open_)
